@@ -111,7 +111,7 @@ func vrsHN(c vrsChain, hn *HashNumber[string, uint32]) (int, string) {
 func vrsNewRound(c vrsChain, w []int) *Round[string, string, uint32, string] {
 	ws := make([]IDWeight[string], len(w))
 	for i, x := range w {
-		ws[i] = IDWeight[string]{ID: fmt.Sprintf("v%d", i+1), Weight: uint64(x)}
+		ws[i] = IDWeight[string]{ID: fmt.Sprintf("v%02d", i+1), Weight: uint64(x)}
 	}
 	vs := NewVoterSet(ws)
 	return NewRound[string, string, uint32, string](RoundParams[string, string, uint32]{
@@ -122,7 +122,7 @@ func vrsNewRound(c vrsChain, w []int) *Round[string, string, uint32, string] {
 }
 
 func vrsImport(r *Round[string, string, uint32, string], c vrsChain, o vrsOp) error {
-	id := fmt.Sprintf("v%d", o.V)
+	id := fmt.Sprintf("v%02d", o.V)
 	sig := fmt.Sprintf("sig/%s/%d/%d", o.Op, o.V, o.B)
 	if o.Op == "Prevote" {
 		_, err := r.importPrevote(c, Prevote[string, uint32]{TargetHash: vrsName(o.B), TargetNumber: c.number(o.B)}, id, sig)
